@@ -66,7 +66,8 @@ func (s *Imports) Reserve(path string, aliases ...string) (string, error) {
 		return "", errors.New("ambient import already exists")
 	}
 
-	if alias := s.findByAlias(alias); alias != nil {
+	// any number of blank and dot imports can coexist
+	if existing := s.findByAlias(alias); existing != nil && alias != "_" && alias != "." {
 		return "", errors.New("ambient import collides on an alias")
 	}
 
